@@ -92,6 +92,11 @@ CHECKS = {
         technique="runtime history monitor: long-lived contexts vs fresh-context replay under a sequential model of `ans`; registry/settings hashed before and after histories",
         text="Seeded histories of 5-60 queries of every kind (plain, time results, conversions, definitions, commands, substances, dates, failing queries of each error family, ans/ANS/_) on long-lived bundled and currency contexts with the feature on and off: every reply must equal the fresh-context reply for the model's previous answer, `ans` must follow the model, and the database, settings and load-time temporaries must be unchanged after each history.",
         note="`now`-dependent queries are exempt from reply comparison; after a time result either ans behaviour is accepted; histories are sampled, not enumerated."),
+    "C18": dict(
+        category="fault_enumeration", design_ref="DESIGN.md §2 C18",
+        technique="runtime fault enumeration with a client-boundary history monitor: request/fault sequences through the real Sandbox::execute, call/return events with unique ids and child pids checked offline against a sequential model",
+        text="Quick: every sequence of length <= 3 over {normal, panic, time-limit overrun, over-limit allocation, child exit, 1 MiB payload, over-limit payload} plus sampled sequences of length 5; thorough: every sequence of length <= 5 over the six kinds the property lists under two gap schedules plus every length <= 3 sequence containing the over-limit payload. Each request must get exactly one reply with its own id and result or an error naming its fault; later requests must be served by a restarted child; no stale ids.",
+        note="Faults are the ones enumerated (no Ctrl-C, no handshake failures); timing-dependent outcomes use a 1.5 s service limit and a 20 s per-call watchdog; a driver-level timeout is inconclusive."),
     "C19": dict(
         category="exploration", design_ref="DESIGN.md §2 C19",
         technique="runtime monitoring with sanitizers: the real alloc.rs compiled into a reference-model monitor (content patterns, quiescent-point conservation at barriers) run natively and under Miri (many seeds), ThreadSanitizer, AddressSanitizer+LeakSanitizer and valgrind memcheck",
